@@ -210,7 +210,11 @@ func parseFee(s string) sdk.Coins {
 }
 
 // SignTx builds and signs the transaction. accNum/seq are what the client believes.
-func SignTx(txCfg client.TxConfig, actors []*Actor, ts *TxSpec, accNum, seq uint64) ([]byte, []sdk.Msg, error) {
+func SignTx(txCfg client.TxConfig, actors []*Actor, ts *TxSpec, accNum, seq uint64, payerAcc ...uint64) ([]byte, []sdk.Msg, error) {
+	var payerAccNum, payerSeq uint64
+	if len(payerAcc) == 2 {
+		payerAccNum, payerSeq = payerAcc[0], payerAcc[1]
+	}
 	msgs := make([]sdk.Msg, 0, len(ts.Msgs))
 	for i := range ts.Msgs {
 		m, err := BuildMsg(actors, &ts.Msgs[i])
@@ -244,16 +248,34 @@ func SignTx(txCfg client.TxConfig, actors []*Actor, ts *TxSpec, accNum, seq uint
 		bz, err := txCfg.TxEncoder()(txb.GetTx())
 		return bz, msgs, err
 	}
-	sig := signing.SignatureV2{PubKey: priv.PubKey(), Data: &signing.SingleSignatureData{SignMode: signing.SignMode_SIGN_MODE_DIRECT}, Sequence: seq}
-	if err := txb.SetSignatures(sig); err != nil {
+	type sg struct {
+		priv   *secp256k1.PrivKey
+		accNum uint64
+		seq    uint64
+	}
+	signers := []sg{{priv, accNum, seq}}
+	if ts.Payer > 0 && actorIdx(ts.Payer-1, len(actors)) != signer.Idx {
+		// an explicit fee payer that is not the message signer: it must co-sign
+		pa := actors[actorIdx(ts.Payer-1, len(actors))]
+		txb.SetFeePayer(pa.Addr)
+		signers = append(signers, sg{pa.Priv, payerAccNum, payerSeq})
+	}
+	var sigs []signing.SignatureV2
+	for _, x := range signers {
+		sigs = append(sigs, signing.SignatureV2{PubKey: x.priv.PubKey(), Data: &signing.SingleSignatureData{SignMode: signing.SignMode_SIGN_MODE_DIRECT}, Sequence: x.seq})
+	}
+	if err := txb.SetSignatures(sigs...); err != nil {
 		return nil, nil, err
 	}
-	sd := authsigning.SignerData{ChainID: chain, AccountNumber: accNum, Sequence: seq, PubKey: priv.PubKey(), Address: sdk.AccAddress(priv.PubKey().Address()).String()}
-	sig2, err := clienttx.SignWithPrivKey(signing.SignMode_SIGN_MODE_DIRECT, sd, txb, priv, txCfg, seq)
-	if err != nil {
-		return nil, nil, err
+	for i, x := range signers {
+		sd := authsigning.SignerData{ChainID: chain, AccountNumber: x.accNum, Sequence: x.seq, PubKey: x.priv.PubKey(), Address: sdk.AccAddress(x.priv.PubKey().Address()).String()}
+		sig2, err := clienttx.SignWithPrivKey(signing.SignMode_SIGN_MODE_DIRECT, sd, txb, x.priv, txCfg, x.seq)
+		if err != nil {
+			return nil, nil, err
+		}
+		sigs[i] = sig2
 	}
-	if err := txb.SetSignatures(sig2); err != nil {
+	if err := txb.SetSignatures(sigs...); err != nil {
 		return nil, nil, err
 	}
 	bz, err := txCfg.TxEncoder()(txb.GetTx())
